@@ -74,10 +74,21 @@ def run(c):
             n, mode, env, chunk = job
             t = c.record(rs, [mode], mpi=n, env=dict(mca, **env), out=c.path("s-%s-%d.ndjson" % (mode, n)), timeout=1800 if th else 400,
                          hang_is_violation=True, sig={"np": n, "mode": mode})
-            return validate(t, "%s@%dranks" % (mode, n), chunk)
+            res = validate(t, "%s@%dranks" % (mode, n), chunk)
+            if res is not None and mode == "aggr":
+                # drift pass: recorded aggregates vs the transcription's PmisRun (informational)
+                sub = c.path("drift-%d.ndjson" % n)
+                pick = [x for x in res["lines"] if '"k":"aggr"' in x]
+                step = max(1, len(pick) // (2000 if th else 500))
+                open(sub, "w").write("\n".join(pick[::step]) + "\n")
+                res["drift"] = c.tlc_trace("C12Trace", sub, label="drift@%dranks" % n, chunk=300, env={"C12MODE": "drift"})["bad"] if pick else []
+            return res
         for res in c.parallel([lambda j=j: one(j) for j in jobs], max_workers=3):
             if res is None:
                 continue
+            if res.get("drift"):
+                c.drift("%d of the sampled recorded aggregations differ from Pmis.tla's PmisRun although GlobalPartitionOK holds "
+                        "(first: line %d)" % (len(res["drift"]), res["drift"][0][0]))
             for ln in res["lines"][:60000:997]:
                 c.sample(ln, limit=8)
             for ln in res["lines"]:
